@@ -1,4 +1,5 @@
 """C16 - undecodable or mismatched payloads produce errors, not panics or leaks."""
+import json
 import random
 import struct
 import time
@@ -112,6 +113,22 @@ def run(tier):
         log("  %s: TLC %d states (%.1fs), %d reference sequences replayed, %d bad (%.1fs)" % (
             name, r.distinct, r.wall, n, bad, time.time() - t0))
     t0 = time.time()
+    # a mismatched payload received inside another message's decode must not be handed that message's endpoints
+    # (NestedRecv.tla, slot NX)
+    t0 = time.time()
+    r = sidecheck.gen_nested_recv(wd, "nrecv-bad", maxdepth=1, maxlen=2)
+    require_ok(r, "MCNestedRecv")
+    if r.violation:
+        violations.append({"what": "NestedRecv.tla: %s violated" % r.violation, "key": "model-nr",
+                           "replay": write_replay("C16", "nrecv-model", {"property": "C16", "kind": "model", "invariant": r.violation})})
+    else:
+        states += r.distinct
+        transitions += r.generated
+        cases = [c for c in sidecheck.cases_of(r) if '"NX"' in json.dumps(c["script"])]
+        n, bad = sidecheck.run_cases("C16", "nrecv-bad", cases, violations, distinct)
+        replayed += n
+        log("  nrecv-bad: %d values whose Deserialize impl receives a mismatched attachment-less payload, %d bad (%.1fs)" % (
+            n, bad, time.time() - t0))
     fz = fuzz_cases(1200 if tier == "quick" else 100000, rnd)
     und = [{"mode": "undecoded"} for _ in range(6)]
     n, bad = sidecheck.run_cases("C16", "fuzz", fz + und, violations, distinct)
